@@ -238,7 +238,15 @@ class Run:
     # -- models ----------------------------------------------------------------------------
     def model(self, spec, cfg, expect="ok", workers=None, env=None, timeout=3600, note="", extra=None, heap=None):
         workers = workers or NCPU
-        r = run_tlc(spec, cfg, self.scratch, env=env, workers=workers, timeout=timeout, extra=extra, heap=heap)
+        # a model that normally takes seconds must not be able to stall the check: bounded wait, one retry with fewer workers
+        first = min(timeout, 900 if self.tier == "quick" else 3000)
+        try:
+            r = run_tlc(spec, cfg, self.scratch, env=env, workers=workers, timeout=first, extra=extra, heap=heap)
+        except Broken as e:
+            if "timed out" not in str(e):
+                raise
+            log("  model %s/%s did not finish in %ds, retrying once with %d workers" % (spec, cfg, first, max(1, workers // 2)))
+            r = run_tlc(spec, cfg, self.scratch, env=env, workers=max(1, workers // 2), timeout=timeout, extra=extra, heap=heap, tag="retry-" + cfg)
         entry = {"spec": spec, "cfg": cfg, "expect": expect, "generated": r["generated"], "distinct": r["distinct"], "depth": r["depth"],
                  "violated": r["violated"], "wall_s": r["wall_s"], "note": note, "cmd": r["cmd"]}
         self.cov["models"].append(entry)
